@@ -131,7 +131,9 @@ pub fn run_rva(
         match child.try_wait() {
             Ok(Some(s)) => break s,
             Ok(None) => {
-                if start.elapsed() > timeout {
+                // the allowance is CPU time of the child; wall time only catches a blocked child
+                let cpu = crate::driver::proc_cpu_secs(child.id()).unwrap_or(0.0);
+                if cpu > timeout.as_secs_f64() || start.elapsed() > timeout * crate::driver::WALL_FACTOR {
                     timed_out = true;
                     let _ = child.kill();
                     break child.wait().map_err(|e| e.to_string())?;
@@ -203,6 +205,46 @@ pub fn hostile_cases() -> Vec<CliCase> {
         text_case("undefined-label", &[("a.s", "main:\n    j nowhere\n")]),
         text_case("function-without-return", &[("a.s", "main:\n    jal f\n    li a7, 10\n    ecall\nf:\n    j f\n")]),
     ];
+    // the same file under several spellings: a cycle must be recognised through '..' and '.'
+    v.push(CliCase {
+        name: "cycle-through-dotdot".into(),
+        entries: vec![
+            Entry::File("d/main.s".into(), b"main:\n    .include \"a.s\"\n    li a7, 10\n    ecall\n".to_vec()),
+            Entry::File("d/a.s".into(), b"    .include \"../d/a.s\"\n    .include \"../d/a.s\"\n    addi t0, t0, t1\n".to_vec()),
+        ],
+        base: "d/main.s".into(),
+    });
+    v.push(text_case("cycle-through-dot", &[("a.s", "main:\n    .include \"./a.s\"\n    .include \"./a.s\"\n    li a7, 10\n    ecall\n")]));
+    v.push(CliCase {
+        name: "two-cycle-through-subdirectory".into(),
+        entries: vec![
+            Entry::File("a.s".into(), b"main:\n    .include \"sub/b.s\"\n    .include \"sub/../sub/b.s\"\n    li a7, 10\n    ecall\n".to_vec()),
+            Entry::File("sub/b.s".into(), b"    addi t0, t0, t1\n    .include \"../a.s\"\n    .include \"../sub/../a.s\"\n".to_vec()),
+        ],
+        base: "a.s".into(),
+    });
+    // one file included several times, many diagnostics (ordering code sees equal names)
+    for (times, lines) in [(2usize, 3usize), (4, 3), (4, 6), (8, 3), (3, 9)] {
+        let mut base = String::from("main:\n");
+        for _ in 0..times {
+            base.push_str("    .include \"lib.s\"\n");
+            base.push_str("    add zero, a0, a1\n");
+        }
+        base.push_str("    li a7, 10\n    ecall\n");
+        let mut lib = String::new();
+        for k in 0..lines {
+            lib.push_str(["    addi t0, t0, t1\n", "    add zero, a0, a1\n", "    frobnicate t0\n"][k % 3]);
+        }
+        v.push(text_case(&format!("repeated-include:{times}x{lines}"), &[("a.s", &base), ("lib.s", &lib)]));
+    }
+    // extreme immediates through every mode (the debug dump prints offsets)
+    v.push(text_case(
+        "extreme-offsets",
+        &[(
+            "a.s",
+            "main:\n    sw t0, -2147483648(sp)\n    lw t1, 2147483647(sp)\n    addi sp, sp, -2048\n    sw t0, -2147483648(sp)\n    csrrw t0, 64, t0\n    sw t1, -2147483648(t0)\n    li t2, -2147483648\n    add sp, sp, t2\n    sw t1, 0(sp)\n    li a7, 10\n    ecall\n",
+        )],
+    ));
     v.push(CliCase {
         name: "include-a-directory".into(),
         entries: vec![
@@ -283,16 +325,24 @@ pub fn run_all_modes(c: &CliCase, case: u64) -> Vec<Option<(String, Value)>> {
                     } else if o.signal.is_some() {
                         out.push(Some((format!("C06|cli-killed|{kind}|signal-{}", o.signal.unwrap_or(0)), w("killed by a signal", &o))));
                     } else if o.code == Some(101) || o.stderr.contains("panicked") {
+                        // "thread 'main' (12345) panicked at <file>:<line>:<col>:" -> "<file>"
+                        // (no thread id, no line numbers: a class must not vary from run to run)
                         let msg: String = o
                             .stderr
                             .lines()
                             .find(|l| l.contains("panicked"))
+                            .and_then(|l| l.split("panicked at ").nth(1))
                             .unwrap_or("")
-                            .replace(|ch: char| ch.is_ascii_digit(), "N")
-                            .chars()
-                            .skip_while(|ch| *ch != 'a')
-                            .take(60)
-                            .collect();
+                            .split(':')
+                            .next()
+                            .unwrap_or("")
+                            .rsplit('/')
+                            .take(2)
+                            .collect::<Vec<_>>()
+                            .into_iter()
+                            .rev()
+                            .collect::<Vec<_>>()
+                            .join("/");
                         let next: String = o.stderr.lines().skip_while(|l| !l.contains("panicked")).nth(1).unwrap_or("").replace(|ch: char| ch.is_ascii_digit(), "N").chars().take(50).collect();
                         out.push(Some((format!("C06|cli-panic|{kind}|{msg}|{next}"), w("the binary panicked", &o))));
                     } else {
